@@ -1,6 +1,9 @@
 import XcpModel.Walker
 import XcpProofs.GiTree
 import XcpProofs.GiConc
+import XcpProofs.GiOverlay
+import XcpProofs.GiClash
+import XcpProofs.MultiGi
 /-! # C17 — `--gitignore` copies exactly the entries the root .gitignore does not exclude
 
 PARTIAL by nature: the pattern engine xcp uses is the third-party `ignore`/`globset` crate; no theorem is
@@ -197,5 +200,116 @@ theorem every_interleaving_leaves_the_pruned_tree (fs : Fs) (c : Cfg) (hd : c.de
     st.failed = false ∧
     (L0.final st = true → FsEq st.fs { fs with root := fs.root.setAt tb.names (Node.prune ps [] srcNode) }) :=
   gitignore_fresh_concurrent_ok fs c hd hn ps src tb srcNode fuel hwf hroot hsrc hsn hcop htb hne habs hpar hun1 hun2 hlen ls st hrun
+
+/-- onto an EXISTING destination that is `Compatible` with the PRUNED source tree (a re-run of the same copy, a destination
+with other entries): every operation succeeds and the destination is overlaid with the pruned tree -/
+theorem existing_destination_is_overlaid_with_the_pruned_tree (fs : Fs) (c : Cfg) (hd : c.dereference = false) (hn : c.noClobber = false)
+    (ps : List Gi.Pattern)
+    (src tb : RPath) (srcNode : Node) (fuel : Nat)
+    (hwf : FsEq fs fs) (hroot : fs.root.isDir = true)
+    (hsrc : PlainTarget fs src) (hsn : fs.root.getAt src.names = some srcNode)
+    (hcop : srcNode.Copyable fuel)
+    (htb : PlainTarget fs tb) (hne : tb.names ≠ [])
+    (hcompat : Compatible (fs.root.getAt tb.names) (Node.prune ps [] srcNode))
+    (hpar : ∃ es, fs.root.getAt tb.names.dropLast = some (.dir es))
+    (hun1 : ¬ src.names <+: tb.names) (hun2 : ¬ tb.names <+: src.names)
+    (hlen : src.names.length + fuel < 200 ∧ tb.names.length + fuel < 200) :
+    ∃ fs', execOps fs c (walkEntry fs c (some ps) src tb (fuel + 1) [] []) = ⟨.ok, fs'⟩ ∧
+      FsEq fs' { fs with
+        root := fs.root.setAt tb.names (Node.overlay (fs.root.getAt tb.names) (Node.prune ps [] srcNode)) } :=
+  gitignore_overlay fs c hd hn ps src tb srcNode fuel hwf hroot hsrc hsn hcop htb hne hcompat hpar hun1 hun2 hlen
+
+/-- … under every interleaving of the walker with the workers -/
+theorem existing_destination_overlaid_on_every_interleaving (fs : Fs) (c : Cfg) (hd : c.dereference = false) (hn : c.noClobber = false)
+    (ps : List Gi.Pattern)
+    (src tb : RPath) (srcNode : Node) (fuel : Nat)
+    (hwf : FsEq fs fs) (hroot : fs.root.isDir = true)
+    (hsrc : PlainTarget fs src) (hsn : fs.root.getAt src.names = some srcNode)
+    (hcop : srcNode.Copyable fuel)
+    (htb : PlainTarget fs tb) (hne : tb.names ≠ [])
+    (hcompat : Compatible (fs.root.getAt tb.names) (Node.prune ps [] srcNode))
+    (hpar : ∃ es, fs.root.getAt tb.names.dropLast = some (.dir es))
+    (hun1 : ¬ src.names <+: tb.names) (hun2 : ¬ tb.names <+: src.names)
+    (hlen : src.names.length + fuel < 200 ∧ tb.names.length + fuel < 200)
+    (ls : List L0.Label) (st : L0.St)
+    (hrun : L0.run c (L0.init fs (walkEntry fs c (some ps) src tb (fuel + 1) [] [])) ls = some st) :
+    st.failed = false ∧
+    (L0.final st = true → FsEq st.fs { fs with
+      root := fs.root.setAt tb.names (Node.overlay (fs.root.getAt tb.names) (Node.prune ps [] srcNode)) }) :=
+  gitignore_overlay_concurrent_ok fs c hd hn ps src tb srcNode fuel hwf hroot hsrc hsn hcop htb hne hcompat hpar hun1 hun2 hlen ls st hrun
+
+/-- … and what the destination holds under a name the source HAS but the patterns EXCLUDE (left by an earlier copy made
+without the option, say) is observed unchanged at every depth: excluded means not copied, not removed -/
+theorem excluded_names_already_in_the_destination_are_left_alone (fs : Fs) (c : Cfg) (hd : c.dereference = false)
+    (hn : c.noClobber = false) (ps : List Gi.Pattern)
+    (src tb : RPath) (des ses : Entries) (fuel : Nat)
+    (hwf : FsEq fs fs) (hroot : fs.root.isDir = true)
+    (hsrc : PlainTarget fs src) (hsn : fs.root.getAt src.names = some (.dir ses))
+    (hcop : (Node.dir ses).Copyable fuel)
+    (htb : PlainTarget fs tb) (hne : tb.names ≠ [])
+    (hdst : fs.root.getAt tb.names = some (.dir des))
+    (hcompat : Compatible (some (.dir des)) (Node.prune ps [] (.dir ses)))
+    (hpar : ∃ es, fs.root.getAt tb.names.dropLast = some (.dir es))
+    (hun1 : ¬ src.names <+: tb.names) (hun2 : ¬ tb.names <+: src.names)
+    (hlen : src.names.length + fuel < 200 ∧ tb.names.length + fuel < 200) :
+    ∃ fs', execOps fs c (walkEntry fs c (some ps) src tb (fuel + 1) [] []) = ⟨.ok, fs'⟩ ∧
+      (∀ m q, m ∉ (pruneL ps [] ses).map (·.1) →
+        obsAt fs'.root (tb.names ++ m :: q) = obsAt fs.root (tb.names ++ m :: q)) ∧
+      (∀ m ch q, (m, ch) ∈ ses → Gi.keeps ps [m] ch.isDir = false →
+        obsAt fs'.root (tb.names ++ m :: q) = obsAt fs.root (tb.names ++ m :: q)) :=
+  gitignore_overlay_keeps_excluded_names fs c hd hn ps src tb des ses fuel hwf hroot hsrc hsn hcop htb hne hdst hcompat hpar
+    hun1 hun2 hlen
+
+/-- "exit 0 ⇒ the destination is the overlay of the PRUNED tree", no compatibility assumed, for every absent or plain
+destination: a destination entry that clashes with an entry the patterns keep makes the run fail (on every interleaving:
+`Xcp.gitignore_clash_fails_every_interleaving`); one that clashes only with an EXCLUDED entry does not count -/
+theorem exit_zero_implies_overlaid_with_the_pruned_tree (fs : Fs) (c : Cfg) (hd : c.dereference = false) (hn : c.noClobber = false)
+    (ps : List Gi.Pattern)
+    (src tb : RPath) (srcNode : Node) (fuel : Nat)
+    (hwf : FsEq fs fs) (hroot : fs.root.isDir = true)
+    (hsrc : PlainTarget fs src) (hsn : fs.root.getAt src.names = some srcNode)
+    (hcop : srcNode.Copyable fuel)
+    (htb : PlainTarget fs tb) (hne : tb.names ≠ [])
+    (hplain : ∀ d, fs.root.getAt tb.names = some d → d.plainTree = true)
+    (hpar : ∃ es, fs.root.getAt tb.names.dropLast = some (.dir es))
+    (hun1 : ¬ src.names <+: tb.names) (hun2 : ¬ tb.names <+: src.names)
+    (hlen : src.names.length + fuel < 200 ∧ tb.names.length + fuel < 200)
+    (fs' : Fs) (hok : execOps fs c (walkEntry fs c (some ps) src tb (fuel + 1) [] []) = ⟨.ok, fs'⟩) :
+    FsEq fs' { fs with
+      root := fs.root.setAt tb.names (Node.overlay (fs.root.getAt tb.names) (Node.prune ps [] srcNode)) } :=
+  gitignore_ok_implies_overlaid fs c hd hn ps src tb srcNode fuel hwf hroot hsrc hsn hcop htb hne hplain hpar hun1 hun2 hlen fs' hok
+
+/-- SEVERAL sources, EACH filtered by the `.gitignore` at ITS OWN root (`parseIgnore` per source, as `runSources` and the
+program do): every target is overlaid with its source pruned by that source's patterns.  The `.gitignore` must not be a
+symbolic link (`hgl`): the proof attempt found that a link leading into the destination can be re-pointed, in effect, by the
+copy of an earlier source, so that the later source is filtered by other patterns than those in force at the start -/
+theorem several_sources_each_filtered_by_its_own_gitignore (fs : Fs) (c : Cfg) (texts : GiTexts) (dest : RPath) (items : List GiSrc) (fuel : Nat)
+    (hd : c.dereference = false) (hn : c.noClobber = false) (hg : c.gitignore = true)
+    (hnt : c.noTargetDir = false)
+    (hwf : FsEq fs fs)
+    (hdest : PlainTarget fs dest) (hdd : ∃ es, fs.root.getAt dest.names = some (.dir es))
+    (hfuel : fuel < walkFuel)
+    (hsrc : ∀ e ∈ items, PlainTarget fs e.path ∧ e.path.fileName = some e.base ∧
+      fs.root.getAt e.path.names = some e.node ∧ e.node.Copyable fuel ∧ e.path.names.length + walkFuel < 256)
+    (hps : ∀ e ∈ items, parseIgnore fs c texts e.path = some e.ps)
+    (hgl : ∀ e ∈ items, ∀ tg, fs.root.getAt (e.path.names ++ [giName]) ≠ some (.link tg))
+    (hnd : (items.map (·.base)).Nodup)
+    (hun : ∀ e ∈ items, ∀ e' ∈ items,
+      ¬ e.path.names <+: dest.names ++ [e'.base] ∧ ¬ dest.names ++ [e'.base] <+: e.path.names)
+    (hcomp : ∀ e ∈ items, Compatible (fs.root.getAt (dest.names ++ [e.base])) (Node.prune e.ps [] e.node))
+    (hlen : dest.names.length + 1 + walkFuel < 256) :
+    ∃ fs', runSources fs c texts dest (items.map (·.path)) = ⟨.ok, fs'⟩ ∧
+      FsEq fs' { fs with root := overlayAll fs.root dest.names (items.map GiSrc.pruned) fs.root } :=
+  multi_gitignore_overlay fs c texts dest items fuel hd hn hg hnt hwf hdest hdd hfuel hsrc hps hgl hnd hun hcomp hlen
+
+/-- the per-source reading on an instance: `/A/.gitignore` = "x", `/B/.gitignore` = "y", both hold `x` and `y`: `x` is absent
+under `/D/A` and present under `/D/B`, `y` the other way round -/
+example : ∃ fs', runSources MultiGiExample.fs0 MultiGiExample.c0 MultiGiExample.texts0 (plainPath [MultiGiExample.nD])
+      [plainPath [MultiGiExample.nA], plainPath [MultiGiExample.nB]] = ⟨.ok, fs'⟩ ∧
+    obsAt fs'.root [MultiGiExample.nD, MultiGiExample.nA, MultiGiExample.nx] = none ∧
+    obsAt fs'.root [MultiGiExample.nD, MultiGiExample.nB, MultiGiExample.nx] = some (.file 3) ∧
+    obsAt fs'.root [MultiGiExample.nD, MultiGiExample.nA, MultiGiExample.ny] = some (.file 2) ∧
+    obsAt fs'.root [MultiGiExample.nD, MultiGiExample.nB, MultiGiExample.ny] = none :=
+  MultiGiExample.example_run
 
 end Xcp.C17
